@@ -263,6 +263,11 @@ func encryptSymmetricAESKW(plaintext []byte, algorithm string, key []byte) (ciph
 		return nil, ErrKeyTypeMismatch
 	}
 
+	// The key data must be made of at least two 64-bit blocks (RFC-3394)
+	if len(plaintext) < 16 || len(plaintext)%8 != 0 {
+		return nil, ErrInvalidPlaintextLength
+	}
+
 	block, err := aes.NewCipher(key)
 	if err != nil {
 		return nil, ErrKeyTypeMismatch
@@ -274,6 +279,11 @@ func encryptSymmetricAESKW(plaintext []byte, algorithm string, key []byte) (ciph
 func decryptSymmetricAESKW(ciphertext []byte, algorithm string, key []byte) (plaintext []byte, err error) {
 	if len(key) != expectedKeySize(algorithm) {
 		return nil, ErrKeyTypeMismatch
+	}
+
+	// The wrapped key is one 64-bit block longer than the key data
+	if len(ciphertext) < 24 || len(ciphertext)%8 != 0 {
+		return nil, ErrInvalidCiphertextLength
 	}
 
 	block, err := aes.NewCipher(key)
